@@ -284,18 +284,30 @@ theorem build_provided (c : AuthCfg) : buildMetadata (provided c) = expectedMeta
         simp only [Option.isNone_some, Bool.false_or, beq_iff_eq, Option.some.injEq, h, if_false]
         cases u <;> cases pw <;> simp [basicProvide]
 
-theorem metadata_inv (c : AuthCfg) (g : Grpc)
+theorem metadata_inv (c : AuthCfg) (faults : Nat → Bool) (g : Grpc)
     (h : g.cache = none ∨ g.cache = some (expectedMetadata c)) :
-    (g.metadata c).1 = expectedMetadata c ∧
-      ((g.metadata c).2.cache = none ∨ (g.metadata c).2.cache = some (expectedMetadata c)) := by
+    (∀ md, (g.metadata c faults).1 = some md → md = expectedMetadata c) ∧
+      ((g.metadata c faults).2.cache = none ∨ (g.metadata c faults).2.cache = some (expectedMetadata c)) := by
+  have hb := build_provided c
   unfold Grpc.metadata
-  rcases h with h | h <;> simp only [h] <;> cases metadataCached <;> simp [build_provided, h]
+  rcases h with h | h
+  · simp only [h]
+    cases hp : provided c with
+    | none =>
+      rw [hp] at hb
+      cases metadataCached <;> simp [hb, h]
+    | some p =>
+      rw [hp] at hb
+      by_cases hf : faults g.asked = true
+      · simp [hf, h]
+      · cases metadataCached <;> simp [hf, hb]
+  · simp [h]
 
-theorem step_inv (c : AuthCfg) (g : Grpc) (op : Op)
+theorem step_inv (c : AuthCfg) (faults : Nat → Bool) (g : Grpc) (op : Op)
     (h : g.cache = none ∨ g.cache = some (expectedMetadata c)) :
-    (∀ x, (step c g op).1.metadata = some x → x = some (expectedMetadata c)) ∧
-      ((step c g op).2.cache = none ∨ (step c g op).2.cache = some (expectedMetadata c)) := by
-  have hm := metadata_inv c g h
+    (∀ x, (step c faults g op).1.metadata = some x → x = some (expectedMetadata c)) ∧
+      ((step c faults g op).2.cache = none ∨ (step c faults g op).2.cache = some (expectedMetadata c)) := by
+  have hm := metadata_inv c faults g h
   cases op with
   | poll ts hash res =>
     simp only [step]
@@ -303,27 +315,94 @@ theorem step_inv (c : AuthCfg) (g : Grpc) (op : Op)
     · exact ⟨(by intro x hx; simp [Wire.metadata] at hx), h⟩
     · split
       · simp only [pollMetadataArg]
-        exact ⟨(by intro x hx; simp only [Wire.metadata, Option.some.injEq] at hx; rw [← hx, hm.1]), hm.2⟩
+        split
+        · rename_i md g' heq
+          have h1 : (g.metadata c faults).1 = some md := by rw [heq]
+          have h2 : (g.metadata c faults).2 = g' := by rw [heq]
+          refine ⟨?_, by rw [← h2]; exact hm.2⟩
+          intro x hx
+          simp only [Wire.metadata, Option.some.injEq] at hx
+          rw [← hx, hm.1 md h1]
+        · rename_i g' heq
+          have h2 : (g.metadata c faults).2 = g' := by rw [heq]
+          exact ⟨(by intro x hx; simp [Wire.metadata] at hx), by rw [← h2]; exact hm.2⟩
       · exact ⟨(by intro x hx; simp [Wire.metadata] at hx), h⟩
   | push s =>
     simp only [step]
     split
     · exact ⟨(by intro x hx; simp [Wire.metadata] at hx), h⟩
     · simp only [sendMetadataArg]
-      exact ⟨(by intro x hx; simp only [Wire.metadata, Option.some.injEq] at hx; rw [← hx, hm.1]), hm.2⟩
+      split
+      · rename_i md g' heq
+        have h1 : (g.metadata c faults).1 = some md := by rw [heq]
+        have h2 : (g.metadata c faults).2 = g' := by rw [heq]
+        refine ⟨?_, by rw [← h2]; exact hm.2⟩
+        intro x hx
+        simp only [Wire.metadata, Option.some.injEq] at hx
+        rw [← hx, hm.1 md h1]
+      · rename_i g' heq
+        have h2 : (g.metadata c faults).2 = g' := by rw [heq]
+        exact ⟨(by intro x hx; simp [Wire.metadata] at hx), by rw [← h2]; exact hm.2⟩
 
-theorem run_inv (c : AuthCfg) : ∀ (ops : List Op) (g : Grpc),
+theorem run_inv (c : AuthCfg) (faults : Nat → Bool) : ∀ (ops : List Op) (g : Grpc),
     (g.cache = none ∨ g.cache = some (expectedMetadata c)) →
-    ∀ w ∈ run c g ops, ∀ x, w.metadata = some x → x = some (expectedMetadata c) := by
+    ∀ w ∈ run c faults g ops, ∀ x, w.metadata = some x → x = some (expectedMetadata c) := by
   intro ops
   induction ops with
   | nil => intro g _ w hw; cases hw
   | cons op rest ih =>
     intro g h w hw x hx
-    have hs := step_inv c g op h
+    have hs := step_inv c faults g op h
     simp only [run, List.mem_cons] at hw
     rcases hw with rfl | hw
     · exact hs.1 x hx
     · exact ih _ hs.2 w hw x hx
+
+/-- a request is still sent once the provider has recovered: with an empty cache and a provider that answers now,
+    `metadata()` returns the provider's value -/
+theorem metadata_recovers (c : AuthCfg) (faults : Nat → Bool) (g : Grpc) (h : g.cache = none)
+    (hok : faults g.asked = false) : (g.metadata c faults).1 = some (expectedMetadata c) := by
+  have hb := build_provided c
+  unfold Grpc.metadata
+  simp only [h]
+  cases hp : provided c with
+  | none => rw [hp] at hb; simp [hb]
+  | some p => rw [hp] at hb; simp [hok, hb]
+
+/-! ### threads -/
+
+theorem cstep_inv (c : AuthCfg) (s : Conc) (tid : Nat)
+    (h : (s.cache = none ∨ s.cache = some (expectedMetadata c)) ∧ ∀ md ∈ s.sent, md = expectedMetadata c) :
+    ((cstep c s tid).cache = none ∨ (cstep c s tid).cache = some (expectedMetadata c)) ∧
+      ∀ md ∈ (cstep c s tid).sent, md = expectedMetadata c := by
+  have hb := build_provided c
+  unfold cstep
+  split
+  · split
+    · rename_i md hc
+      refine ⟨h.1, ?_⟩
+      intro x hx
+      simp only [List.mem_append, List.mem_singleton] at hx
+      rcases hx with hx | hx
+      · exact h.2 x hx
+      · rcases h.1 with h1 | h1
+        · rw [h1] at hc; cases hc
+        · rw [h1] at hc; cases hc; exact hx
+    · exact h
+  · refine ⟨?_, ?_⟩
+    · cases metadataCached <;> simp [hb, h.1]
+    · intro x hx
+      simp only [List.mem_append, List.mem_singleton] at hx
+      rcases hx with hx | hx
+      · exact h.2 x hx
+      · rw [hx, hb]
+  · exact h
+
+theorem crun_inv (c : AuthCfg) (sched : List Nat) : ∀ (s : Conc),
+    ((s.cache = none ∨ s.cache = some (expectedMetadata c)) ∧ ∀ md ∈ s.sent, md = expectedMetadata c) →
+    ∀ md ∈ (sched.foldl (cstep c) s).sent, md = expectedMetadata c := by
+  induction sched with
+  | nil => intro s h; exact h.2
+  | cons t rest ih => intro s h; exact ih _ (cstep_inv c s t h)
 
 end Wire
